@@ -193,3 +193,25 @@ pub fn r_lowest_age(w: &[ValueType]) -> usize {
 	}
 	n - 1 - best
 }
+
+/// moving-average constructor by name
+pub fn ma_by_name(kind: &str, n: yata::core::PeriodType) -> yata::helpers::MA {
+	use yata::helpers::MA;
+	match kind {
+		"sma" => MA::SMA(n),
+		"wma" => MA::WMA(n),
+		"hma" => MA::HMA(n),
+		"rma" => MA::RMA(n),
+		"ema" => MA::EMA(n),
+		"dma" => MA::DMA(n),
+		"dema" => MA::DEMA(n),
+		"tma" => MA::TMA(n),
+		"tema" => MA::TEMA(n),
+		"wsma" => MA::WSMA(n),
+		"smm" => MA::SMM(n),
+		"swma" => MA::SWMA(n),
+		"trima" => MA::TRIMA(n),
+		"linreg" => MA::LinReg(n),
+		_ => MA::Vidya(n),
+	}
+}
